@@ -79,6 +79,7 @@ class ParserInterp(Interp):
         keep |= {p["name"] for p in fn.params}
         self.tracked = {p for p in self.tracked if p in keep} | {SKIP}
         self.always_live = {SKIP}
+        self.arith_paths = {SKIP}
 
     def initial(self):
         sig = {}
